@@ -11,9 +11,9 @@ export GOFLAGS=-mod=mod GOPROXY=off GOSUMDB=off GOTOOLCHAIN=local
 [ -f "$SRC/patch.diff" ] || { echo "no patch in $SRC"; exit 2; }
 PKGDIR=$(python3 -c "
 import json,os,re;m=json.load(open('$SRC/meta.json'));f=m.get('files_changed');f=f if isinstance(f,list) else [f]
-c=m.get('demo_cmd','');r=re.findall(r'\./((?:cmd|pkg|internal)[A-Za-z0-9_/.-]*)', c)
-d=r[-1].rstrip('/') if r else os.path.dirname(f[0])
-print(d if os.path.isdir('/repo/'+d) else os.path.dirname(f[0]))")
+c=m.get('demo_cmd','');r=re.findall(r'((?:cmd|pkg|internal)/[A-Za-z0-9_/.-]*)', c)
+r=[x.rstrip('/') for x in r if os.path.isdir('/repo/'+x.rstrip('/'))]
+print(r[-1] if r else os.path.dirname(f[0]))")
 RUNPAT=$(python3 -c "
 import json,re;m=json.load(open('$SRC/meta.json'));c=m.get('demo_cmd','')
 r=re.search(r\"-run[ =]+'?\\\"?([^ '\\\"]+)\", c);print(r.group(1) if r else 'TestSeeded')")
